@@ -143,6 +143,31 @@ Proof.
   - cbn [tr_ccrit beval ceval]. rewrite IHa. reflexivity.
 Qed.
 
+(* ---- self-referential any() / has() : the criterion is evaluated on the related row (alias), not on the outer row ---- *)
+Lemma nchild_pj : forall (m n : crow), is_true (cmp3 OEq (Some (c_id n)) (c_pid m)) = nchild m n.
+Proof.
+  intros m n. unfold nchild. destruct (c_pid m) as [v|]; [|reflexivity].
+  cbn [cmp3 cmpZ]. rewrite is_true_tv_of_bool. apply Z.eqb_sym.
+Qed.
+
+Lemma ncrit_tr : forall e na n c, lookup e na = grow_c n -> na <> sub_alias ->
+  beval d e (tr_ncrit na c) = neval d n c.
+Proof.
+  intros e na n c Hl Hne.
+  assert (Hn : Nat.eqb na sub_alias = false) by (apply Nat.eqb_neq; exact Hne).
+  induction c as [s|s|s|a IHa b IHb|a IHa b IHb|a IHa].
+  - cbn [tr_ncrit neval]. rewrite sx_tr, Hl. reflexivity.
+  - cbn [tr_ncrit beval neval rows_of]. f_equal. rewrite existsb_map. apply existsb_ext'. intros m.
+    cbn [beval]. rewrite is_true_and3, sx_tr. cbn [eeval lookup]. rewrite Nat.eqb_refl, Hn, Hl.
+    cbn [gcol grow_c g_id g_pid g_y]. rewrite nchild_pj. reflexivity.
+  - cbn [tr_ncrit beval neval rows_of]. f_equal. rewrite existsb_map. apply existsb_ext'. intros m.
+    cbn [beval]. rewrite is_true_and3, sx_tr. cbn [eeval lookup]. rewrite Nat.eqb_refl, Hn, Hl.
+    cbn [gcol grow_c g_id g_pid g_y]. rewrite nchild_pj. reflexivity.
+  - cbn [tr_ncrit beval neval]. rewrite IHa, IHb. reflexivity.
+  - cbn [tr_ncrit beval neval]. rewrite IHa, IHb. reflexivity.
+  - cbn [tr_ncrit beval neval]. rewrite IHa. reflexivity.
+Qed.
+
 (* contains() of a child without parent: the compiled comparison is UNKNOWN, the meaning is FALSE *)
 Lemma contains_orphan_unknown : forall e pa p cid c, lookup e pa = grow_p p ->
   find_child d cid = Some c -> c_pid c = None ->
